@@ -14,6 +14,7 @@ def register(S):
     register_send(S)
     register_dispatch(S)
     register_requests(S)
+    register_api(S)
 
 
 def register_send(S):
@@ -149,9 +150,9 @@ def register_dispatch(S):
                                              SOCK, SOCK + ".outbuf", SOCK + ".inbuf", SOCK + ".shut_attempted", SOCK + ".closed",
                                              SOCK + ".failed", "self._local_objects._dict"]},
                    "SystemExit": {"only_when": "truthy(self._config['propagate_SystemExit_locally'])",
-                                  "state": ["n_ev('HandlerRun') == 1", "n_callees('_send') == 0"], "props": P8},
+                                  "state": ["n_ev('HandlerRun') <= 1", "n_callees('_send') == 0"], "props": P8},
                    "KeyboardInterrupt": {"only_when": "truthy(self._config['propagate_KeyboardInterrupt_locally'])",
-                                         "state": ["n_ev('HandlerRun') == 1", "n_callees('_send') == 0"], "props": P8},
+                                         "state": ["n_ev('HandlerRun') <= 1", "n_callees('_send') == 0"], "props": P8},
                },
                modifies=["self._send_queue", "self._sendlock.held", SOCK + ".outbuf", SOCK + ".inbuf", "self._closed",
                          "self._last_traceback", "self._local_objects._dict"])
@@ -227,4 +228,47 @@ def register_requests(S):
                    "implies(not exc_is(exc, 'Exception') == False, n_callees('_get_seq_id') == 1 and "
                    "not haskey(self._request_callbacks, callee_result('_get_seq_id', 0)) and "
                    "unchanged_except(self._request_callbacks, callee_result('_get_seq_id', 0)))"]}},
+               modifies=CONN_IO)
+
+
+def register_api(S):
+    """async_request / sync_request (C15.7, C08, C01)"""
+    P = ["C15", "C08", "C01"]
+    TMO = "(self_kwargs_timeout)"
+    S.contract(F + "async_request",
+               params={"self": "obj:Connection", "handler": "val", "args": "vl", "kwargs": "dict"}, result="obj:AsyncResult",
+               init={"self._sendlock.held": "False", "self._send_queue.items": "nil()"}, clock=True,
+               ghost={"tmo": "val"},
+               # the only keyword accepted is `timeout`; tmo is its value (None when absent)
+               requires=OPEN + ["plain(handler)", "sized(handler)",
+                                "only_key(kwargs, 'timeout')",
+                                "same(tmo, kwargs['timeout'] if haskey(kwargs, 'timeout') else None)",
+                                "isnone(tmo) or (isnum(tmo) and num_of(tmo) >= 0)"],
+               ensures={"pending_result_registered_as_callback": (
+                   "result._conn is self and n_callees('_async_request') == 1 and "
+                   "same(callee_arg('_async_request', 0, 'handler'), handler) and "
+                   "same(callee_arg('_async_request', 0, 'args'), mktuple(args)) and "
+                   "callee_arg('_async_request', 0, 'callback') is result", P),
+                   # the expiry is set exactly when a timeout was given (zero included), relative to the time of the call
+                   "expiry_iff_timeout_given": (
+                   "result._ttl.finite == (not isnone(tmo)) and implies(result._ttl.finite, "
+                   "old(now()) + num_of(tmo) <= result._ttl.tmax and result._ttl.tmax <= now() + num_of(tmo))", P)},
+               raises={"BaseException": {"props": P, "modifies": CONN_IO + ["kwargs"]}},
+               modifies=CONN_IO + ["kwargs"])
+    S.contract(F + "sync_request", params={"self": "obj:Connection", "handler": "val", "args": "vl"}, result="val",
+               init={"self._sendlock.held": "False", "self._send_queue.items": "nil()"}, clock=True,
+               requires=OPEN + ["plain(handler)", "sized(handler)", "haskey(self._config, 'sync_request_timeout')",
+                                "isnone(self._config['sync_request_timeout']) or (isnum(self._config['sync_request_timeout']) "
+                                "and num_of(self._config['sync_request_timeout']) >= 0)"],
+               calls={"async_request": {"ghost": {"tmo": "self._config['sync_request_timeout']"}}},
+               # a synchronous request is an asynchronous one carrying the connection's configured timeout
+               ensures={"is_async_request_with_the_configured_timeout_then_value": (
+                   "n_callees('async_request') == 1 and n_callees('value') == 1 and n_events() == 2 and "
+                   "same(callee_arg('async_request', 0, 'handler'), handler) and callee_arg('async_request', 0, 'args') == args and "
+                   "same(callee_arg('async_request', 0, 'tmo'), self._config['sync_request_timeout']) and "
+                   "callee_arg('value', 0, 'self') is callee_result('async_request', 0) and "
+                   "same(result, callee_result('value', 0))", P)},
+               raises={"BaseException": {"props": P, "modifies": CONN_IO, "state": [
+                   "n_callees('async_request') == 1 and "
+                   "same(callee_arg('async_request', 0, 'tmo'), self._config['sync_request_timeout'])"]}},
                modifies=CONN_IO)
